@@ -1,8 +1,7 @@
 import PlzVerif.Lemmas.AspOps
-import PlzVerif.Model.AspFacts
 import PlzVerif.Model.AspInterp
 import PlzVerif.Model.PyInterp
-import PlzVerif.Generated.C16
+import PlzVerif.Model.AspGenerated
 /-!
 C16  The BUILD language agrees with Python on its documented subset.
 
@@ -20,15 +19,10 @@ C16  The BUILD language agrees with Python on its documented subset.
 namespace PlzVerif.Props.C16
 open PlzVerif.Asp PlzVerif.Generated
 
-def raw : RawFacts :=
-  { precTable := C16.precTable, precDefault := C16.precDefault, lazyOps := C16.lazyOps,
-    operators := C16.operators, intOps := C16.intOps,
-    listAddAppendsToReceiver := C16.listAddAppendsToReceiver, freezeWraps := C16.freezeWraps,
-    sortedArg := C16.sortedArg, reversedArg := C16.reversedArg,
-    constantFoldsLists := C16.constantFoldsLists, listSlice := C16.listSlice }
+abbrev raw : RawFacts := genRaw
 
 /-- The asp model at the regenerated facts. -/
-def F : Facts := factsOf raw
+abbrev F : Facts := genF
 
 def knownIntKinds : List String := ["+", "-", "*", "/", "%", "floor(float/float)", "<", ">", "<=", ">=", "==", "!="]
 
@@ -37,7 +31,7 @@ def knownIntKinds : List String := ["+", "-", "*", "/", "%", "floor(float/float)
     the token map is the expected one; every integer operator has a shape the model knows, the arithmetic ones
     being Go's `+ - *`, and `//` going through the float floor. -/
 def FactsOK : Bool :=
-  precOrderOK F.prec &&
+  precOrderOK F.prec && raw.listAddClips &&
   raw.lazyOps == ["And", "Or"] &&
   raw.operators == expectedTokens &&
   raw.intOps.all (fun e => knownIntKinds.contains e.2) &&
@@ -134,7 +128,7 @@ theorem prec_order : ∀ a b : Op, F.prec a ≥ F.prec b ↔ pyPrec a ≥ pyPrec
   have h : precOrderOK F.prec = true := by
     have := C16_facts_ok
     simp only [FactsOK, Bool.and_eq_true] at this
-    exact this.1.1.1.1.1.1.1.1.1.1.1.1
+    exact this.1.1.1.1.1.1.1.1.1.1.1.1.1
   intro a b
   have := List.all_eq_true.1 (List.all_eq_true.1 h a (mem_allOps a)) b (mem_allOps b)
   have e : decide (F.prec a ≥ F.prec b) = decide (pyPrec a ≥ pyPrec b) := by simpa using this
